@@ -44,7 +44,7 @@ use crate::util::{self, Out, Rng};
 
 /// Largest chunk the feeder accepts: must fit the pipe so that one `write` is one atomic event.
 const PIPE_SIZE: usize = 256 * 1024;
-const MAX_CHUNK: usize = 200 * 1024;
+const MAX_CHUNK: usize = 20 * 1024 * 1024;
 const MAX_CALLS: usize = 64;
 
 pub fn main(args: &[String]) -> i32 {
@@ -81,7 +81,7 @@ fn parse(line: &str) -> Option<Req> {
     if w.len() < 3 || w[0] != "chunks" {
         return None;
     }
-    let chunks: Option<Vec<Vec<u8>>> = w[1].split('|').map(util::unhex).collect();
+    let chunks: Option<Vec<Vec<u8>>> = w[1].split('|').map(unhex_chunk).collect();
     let chunks = chunks?;
     let calls: usize = w[2].strip_prefix("calls=")?.parse().ok()?;
     let mut delay_us = 0;
@@ -95,6 +95,41 @@ fn parse(line: &str) -> Option<Req> {
     }
     Some(Req { chunks, calls, delay_us })
 }
+
+/// A chunk: `+`-joined parts, each plain hex (`-` = empty) or a run `HH*N` (N copies of the byte HH) —
+/// lines of several MiB stay a few characters long in the request.
+fn unhex_chunk(tok: &str) -> Option<Vec<u8>> {
+    let mut out = Vec::new();
+    for part in tok.split('+') {
+        if let Some((b, n)) = part.split_once('*') {
+            let b = util::unhex(b)?;
+            if b.len() != 1 {
+                return None;
+            }
+            let n: usize = n.parse().ok()?;
+            if out.len() + n > MAX_CHUNK {
+                return None;
+            }
+            out.resize(out.len() + n, b[0]);
+        } else {
+            out.extend(util::unhex(part)?);
+        }
+    }
+    Some(out)
+}
+
+/// FNV-1a, 64 bit: long lines are answered as `L<length>:<digest>` (see `LONG_LINE`).
+fn fnv64(b: &[u8]) -> u64 {
+    let mut h: u64 = 0xcbf2_9ce4_8422_2325;
+    for &x in b {
+        h ^= u64::from(x);
+        h = h.wrapping_mul(0x0000_0100_0000_01b3);
+    }
+    h
+}
+
+/// Lines longer than this are rendered by length and digest instead of hex.
+const LONG_LINE: usize = 256 * 1024;
 
 fn request_line(chunks: &[Vec<u8>], calls: usize, delay_us: u64) -> String {
     let c: Vec<String> = chunks.iter().map(|c| util::hex(c)).collect();
@@ -120,7 +155,7 @@ fn render(results: &[CallResult]) -> String {
     for r in results {
         match r {
             CallResult::Line(b) => {
-                lines.push(util::hex(b));
+                lines.push(if b.len() > LONG_LINE { format!("L{}:{:016x}", b.len(), fnv64(b)) } else { util::hex(b) });
                 bits.push(if std::str::from_utf8(b).is_ok() { '1' } else { '0' });
             }
             CallResult::Bad(what) => {
